@@ -679,20 +679,7 @@ func c03Placement(c *Ctx) {
 
 // c03VerbSet: the verbs an `x == V || x == W …` expression accepts (constants resolved, upper-cased).
 func c03VerbSet(c *Ctx, info *types.Info, e ast.Expr) []string {
-	set := map[string]bool{}
-	ast.Inspect(e, func(n ast.Node) bool {
-		be, ok := n.(*ast.BinaryExpr)
-		if !ok || be.Op.String() != "==" {
-			return true
-		}
-		for _, side := range []ast.Expr{be.X, be.Y} {
-			if tv, ok := info.Types[side]; ok && tv.Value != nil {
-				set[strings.ToUpper(strings.Trim(tv.Value.ExactString(), `"`))] = true
-			}
-		}
-		return true
-	})
-	return sortedKeys(set)
+	return c.P.ConstCompareSet(info, e)
 }
 
 // c03OneOperation: R03d.
